@@ -77,7 +77,7 @@ def variants(tier: str, default_fsync_only: bool = False):  # noqa: C901
     add('pack_all_loose:yes:clpp=1:small-objects', pack('yes', True), ['small'])
     add('pack_all_loose:novalidate', pack('no', True, validate=False), ['loose', 'mixed'], quick=False)
     add('pack_all_loose:callback', pack('yes', False, callback=True), ['loose'], quick=False)
-    add('pack_all_loose:no-fsync', pack('no', True, do_fsync=False), ['loose'], quick=False, fsync_default=False)
+    add('pack_all_loose:no-fsync', pack('no', True, do_fsync=False), ['small', 'loose'], fsync_default=False)
     add('pack_all_loose:sha1', pack('yes', True), ['mixed'], hash_type='sha1', target=500, quick=False)
     # cleaning ---------------------------------------------------------------------------------------------
     add('clean_storage', {'op': 'clean_storage', 'vacuum': False}, ['mixed'])
@@ -123,6 +123,12 @@ def variants(tier: str, default_fsync_only: bool = False):  # noqa: C901
             quick=mode in ('no',))
     add('repack:keep:holes', {'op': 'repack', 'mode': 'keep'}, ['plain-holes', 'zipped-holes'], repack=True)
     add('repack:auto:holes', {'op': 'repack', 'mode': 'auto'}, ['zipped-holes', 'plain-holes'], repack=True, quick=False)
+    # a maintenance call that ends with VACUUM followed, on the SAME handle, by operations that write pack rows: the transaction state
+    # left behind by the first must not change when the rows of the second become durable/visible
+    add('repack-then-direct', [{'op': 'repack', 'mode': 'keep'}, {'op': 'add_objects_to_pack', 'cs': [NEW[0], NEW[1], A[0]], 'compress': False}],
+        ['mixed', 'plain'])
+    add('repack-then-pack', [{'op': 'repack', 'mode': 'keep'}, pack('yes', True)], ['mixed'], quick=False)
+    add('vacuum-then-pack', [{'op': 'clean_storage', 'vacuum': True}, pack('yes', True)], ['mixed', 'loose'], quick=False)
     add('repack_pack:keep:after-delete', [{'op': 'delete', 'cs': [A[1]], 'absent': []}, {'op': 'repack_pack', 'mode': 'keep', 'pack': 0}],
         ['plain', 'mixed'], repack=True, quick=False)
     return out
